@@ -6,6 +6,7 @@ open Primaite Primaite.Agents
     p-init  <periodic|dm> start startVar freq var maxExec nNodes d0        → ok <next> | raised
     p-step  t d k                                                          → nothing|exec <k>|raised  <next> <num>
     prob    <ins|key> nActions uNum uDen k:w,k:w,…                          → chose <i> | raised
+    probn   <ins|key> nActions den uNum uDen k:w,…  (w ∈ ℤ, p = w/den)       → chose <i> | raised | rejected
     t1-init start freq var rkc rst pPn pPd pCn pCd pYn pYd attempts repeatScan exfil corrupt cont d0 k1 k2
             startingNodes defaultStartingNode targetIps defaultTargetIp networkAddresses
             c2Server c2Ip keepAlive masqPort masqProto exfilFolder targetUser targetPass      (lists: a,b,c or -)
@@ -34,6 +35,15 @@ def csvPairs (s : String) : Option (List (Nat × Nat)) :=
   (s.splitOn ",").mapM fun e =>
     match (e.splitOn ":").map String.toNat? with
     | [some a, some b] => some (a, b)
+    | _ => none
+
+def csvIntPairs (s : String) : Option (List (Nat × Int)) :=
+  if s = "-" then some [] else
+  (s.splitOn ",").mapM fun e =>
+    match e.splitOn ":" with
+    | [a, b] => match a.toNat?, b.toInt? with
+      | some a, some b => some (a, b)
+      | _, _ => none
     | _ => none
 
 def tb (n : Int) : Bool := n ≠ 0
@@ -139,6 +149,20 @@ def step (st : DState) : List String → DState × String
       | .chose i => (st, s!"chose {i}")
       | .raised => (st, "raised")
     | _, _, _, _ => (st, "bad-op")
+  | ["probn", ord, n, den, un, ud, tb] =>
+    match n.toNat?, den.toNat?, un.toNat?, ud.toNat?, csvIntPairs tb with
+    | some n, some den, some un, some ud, some tb =>
+      let byKey : Option (List Int) := (List.range tb.length).mapM fun i => (tb.find? (·.1 == i)).map (·.2)
+      let covered := (List.range tb.length).all fun i => (tb.find? (·.1 == i)).isSome
+      let ws := if ord = "key" then byKey else some (tb.map (·.2))
+      if ¬ covered ∨ ¬ validatorSumOk den (tb.map (·.2)) then (st, "rejected") else
+      match ws with
+      | none => (st, "raised")
+      | some ws =>
+        match choiceNp n den ws { num := un, den := ud } with
+        | .chose i => (st, s!"chose {i}")
+        | .raised => (st, "raised")
+    | _, _, _, _, _ => (st, "bad-op")
   | "t1-init" :: args =>
     match ints (args.take 19), args.drop 19 with
     | some [start, f, v, rkc, rst, ppn, ppd, pcn, pcd, pyn, pyd, att, rsc, ex, co, cont, d0, k1, k2], strs =>
